@@ -219,3 +219,78 @@ const SPECIAL_PROBS: [[f64; 5]; 3] = [[0.0, 1.0, 0.5, 0.3, 0.08], [1.0, 1.0, 0.0
         }
     }}
 }
+
+// ---- exclusive groups (annotated disjunctions): exactly one choice of a group holds -----------------------------------------
+use shared::hybrid::SeedKind;
+use shared::seed_spec::{ExclusiveChoice, SeedSpec};
+use std::collections::BTreeMap;
+
+/// seeds 0,1,2: one exclusive group (probabilities sum to 1); seeds 3,4: independent
+fn group_fixture(f: &F, group_probs: [f64; 3], indep: [f64; 2]) -> (LineageStore, SeedSnapshot, LineageId) {
+    let specs = vec![
+        SeedSpec::ExclusiveGroup { group_id: 7, choices: (0..3).map(|i| ExclusiveChoice { triple: triple(i as u32 + 1), prob: group_probs[i], choice_id: i as u32 }).collect() },
+        SeedSpec::Independent { triple: triple(4), prob: indep[0], seed_id: 3 },
+        SeedSpec::Independent { triple: triple(5), prob: indep[1], seed_id: 4 },
+    ];
+    let seeds = SeedSnapshot::from_seed_specs(&specs).unwrap();
+    let mut ids: Vec<(u32, SeedId)> = seeds.records().map(|r| (r.triple.subject, r.id)).collect();
+    ids.sort();
+    let ids: Vec<SeedId> = ids.into_iter().map(|x| x.1).collect();
+    let mut store = LineageStore::new();
+    let root = build(&mut store, &ids, f);
+    (store, seeds, root)
+}
+/// possible worlds: one choice per exclusive group x every assignment of the independent seeds
+fn group_oracle(store: &LineageStore, seeds: &SeedSnapshot, root: LineageId) -> f64 {
+    let mut independent = Vec::new();
+    let mut groups: BTreeMap<u32, Vec<(SeedId, f64)>> = BTreeMap::new();
+    for r in seeds.records() { match r.kind { SeedKind::Independent => independent.push((r.id, r.probability)), SeedKind::ExclusiveGroup(g) => groups.entry(g).or_default().push((r.id, r.probability)) } }
+    let mut partial: Vec<(HashMap<SeedId, bool>, f64)> = vec![(HashMap::new(), 1.0)];
+    for members in groups.values() {
+        let mut next = Vec::new();
+        for (world, weight) in &partial { for (chosen, p) in members {
+            let mut w = world.clone();
+            for (m, _) in members { w.insert(*m, m == chosen); }
+            next.push((w, weight * p));
+        }}
+        partial = next;
+    }
+    let mut total = 0.0;
+    for (world, weight) in &partial { for mask in 0..(1usize << independent.len()) {
+        let mut w = world.clone(); let mut wt = *weight;
+        for (i, (id, p)) in independent.iter().enumerate() { let v = mask & (1 << i) != 0; w.insert(*id, v); wt *= if v { *p } else { 1.0 - *p }; }
+        if truth(store, root, &w) { total += wt; }
+    }}
+    total
+}
+#[test] fn w__hybrid__exclusive_groups_against_possible_worlds() {
+    use F::*;
+    let l = |i| L(i);
+    let n = |f: F| Not(Box::new(f));
+    let fs = vec![
+        l(0), Or(vec![l(0), l(1)]), Or(vec![l(0), l(1), l(2)]), Or(vec![l(0), l(3)]), And(vec![l(0), l(3)]), n(l(0)), n(Or(vec![l(0), l(1)])), And(vec![l(0), l(1)]),
+        Or(vec![And(vec![l(0), l(3)]), And(vec![l(1), l(4)])]), Or(vec![l(0), And(vec![l(3), l(4)])]), And(vec![Or(vec![l(0), l(3)]), Or(vec![l(1), l(4)])]), Or(vec![n(l(2)), l(4)]),
+        And(vec![n(l(0)), l(3)]), Or(vec![l(2), l(3), l(4)]), And(vec![Or(vec![l(0), l(1)]), n(l(3))]),
+    ];
+    let clock = FrozenClock(Instant::now());
+    for (fi, f) in fs.iter().enumerate() { for gp in [[0.2, 0.3, 0.5], [0.6, 0.4, 0.0], [1.0, 0.0, 0.0]] { for ip in [[0.5, 0.25], [0.08, 0.9]] {
+        let (store, seeds, root) = group_fixture(f, gp, ip);
+        let truth = group_oracle(&store, &seeds, root);
+        for k in 1..=4 {
+            if let Ok(e) = evaluate_topk(&store, &seeds, root, k, Duration::from_secs(3600), 100_000) {
+                assert!(e.interval.lower - 1e-9 <= truth && truth <= e.interval.upper + 1e-9, "formula #{} {:?} group {:?} independent {:?} k={}: top-k interval [{}, {}] does not contain the true probability {}", fi, f, gp, ip, k, e.interval.lower, e.interval.upper, truth);
+            }
+        }
+        let store = Arc::new(Mutex::new(store));
+        let seeds = Arc::new(seeds);
+        for (k_initial, k_max) in [(1usize, 1usize), (1, 4), (8, 64)] {
+            for threshold in [truth - 0.05, truth, truth + 0.05, 0.5, 0.0, 1.0] {
+                if !(0.0..=1.0).contains(&threshold) { continue; }
+                let config = HybridConfig { threshold, k_initial, k_max, ..HybridConfig::default() };
+                if config.validate().is_err() { continue; }
+                let result = evaluate_hybrid_with_clock(&store, &seeds, root, &config, &clock);
+                sound(&result, truth, threshold, &format!("formula #{} {:?} (seeds 0-2: exclusive group {:?}, seeds 3-4 independent {:?}) k_initial={} k_max={} threshold={}", fi, f, gp, ip, k_initial, k_max, threshold));
+            }
+        }
+    }}}
+}
